@@ -76,7 +76,8 @@ impl Read for RingReader {
         loop {
             if g.2 > 0 {
                 let cap = g.0.len();
-                let n = out.len().min(g.2).min(self.max_read);
+                let cap_now = if self.max_read == crate::ioscript::VARIED_READS { crate::ioscript::varied_size(self.consumed.load(Ordering::SeqCst)) } else { self.max_read };
+                let n = out.len().min(g.2).min(cap_now);
                 let start = g.1;
                 let first = n.min(cap - start);
                 out[..first].copy_from_slice(&g.0[start..start + first]);
@@ -243,14 +244,18 @@ fn in_process(ctx: &Ctx) {
         for &n in &sizes {
             // not an exact multiple: the last chunk is short; reads are capped to provoke short chunks on one lane
             let len = n * CHUNK - 17;
-            for max_read in [usize::MAX, 40_000] {
-                if max_read != usize::MAX && n > 256 {
+            for max_read in [usize::MAX, 40_000, crate::ioscript::VARIED_READS] {
+                if max_read == 40_000 && n > 256 {
+                    continue;
+                }
+                if max_read == crate::ioscript::VARIED_READS && n > 4096 {
                     continue;
                 }
                 let t0 = std::time::Instant::now();
                 let rd = stream(mode, len, max_read, ctx.seed);
                 ctx.eval();
-                let case = || json!({"mode": format!("{:?}", mode), "input_bytes": len, "chunks": n, "max_read": if max_read == usize::MAX { json!("unlimited") } else { json!(max_read) },
+                let case = || json!({"mode": format!("{:?}", mode), "input_bytes": len, "chunks": n, "max_read": if max_read == usize::MAX { json!("unlimited") } else if max_read == crate::ioscript::VARIED_READS { json!("a different size on every call, 128..=65536") } else { json!(max_read) },
+                    "retained_after_the_call": {"encrypt": rd.enc.live_at_end, "decrypt": rd.dec.live_at_end},
                     "encrypt": {"peak_live": rd.enc.peak_live, "largest_block": rd.enc.largest_block, "allocations": rd.enc.allocations},
                     "decrypt": {"peak_live": rd.dec.peak_live, "largest_block": rd.dec.largest_block, "allocations": rd.dec.allocations},
                     "encrypt_lag_bytes": rd.enc_lag, "decrypt_lag_bytes": rd.dec_lag, "seconds": t0.elapsed().as_secs_f64(), "detail": rd.detail});
@@ -271,6 +276,13 @@ fn in_process(ctx: &Ctx) {
                     ctx.violation(&format!("C11:{:?}:decrypt-memory-grows-with-input", mode), case());
                     continue;
                 }
+                if rd.enc.live_at_end > b.enc.live_at_end + slack || rd.dec.live_at_end > b.dec.live_at_end + slack {
+                    ctx.violation(&format!("C11:{:?}:memory-still-held-after-the-call-grows-with-input", mode), case());
+                    continue;
+                }
+                if max_read == crate::ioscript::VARIED_READS && n >= 256 {
+                    ctx.seen("stream read in thousands of distinct sizes: peaks flat, nothing retained");
+                }
                 // lag: each output chunk is written before more than two further chunks of input were consumed
                 let limit = 2 * CHUNK as i64 + 132 + 64;
                 if rd.enc_lag > limit {
@@ -283,7 +295,7 @@ fn in_process(ctx: &Ctx) {
                 }
                 ctx.seen(&format!("{:?}: {} chunks streamed, peaks flat (enc {} B, dec {} B), lag enc {} dec {}", mode, n, rd.enc.peak_live, rd.dec.peak_live, rd.enc_lag, rd.dec_lag));
                 ctx.seen("streams within memory and lag bounds");
-                ctx.distinct(&format!("{:?}|{}|{}", mode, n, max_read == usize::MAX));
+                ctx.distinct(&format!("{:?}|{}|{}", mode, n, max_read));
                 ctx.sample("in-process stream", 4, || case());
             }
         }
@@ -412,6 +424,7 @@ pub fn run(ctx: &Ctx) {
     in_process(ctx);
     cli_rss(ctx);
     ctx.require("streams within memory and lag bounds", 8);
+    ctx.require("stream read in thousands of distinct sizes", 2);
     ctx.require("cli ", 3);
     let _ = Tier::Quick;
 }
